@@ -176,7 +176,7 @@ const NAMES: &[&str] = &["libfoo2.0-dev", "a", "g++", "x~y", "python3-dulwich", 
 const AQS: &[&str] = &["any", "native", "amd64"];
 /// two version chains in increasing Debian order (Policy 5.6.12)
 // (ranks 0..5 are the ordered chains of C12; the entries after them - hyphens inside the upstream part - are used by the generated fields only)
-pub const VERS: [&[&str]; 2] = [&["1.0~rc1", "1.0", "1.0-1", "1.0-1+b1", "1.1", "2", "1.0-rc1-2"], &["0.9~~", "0.9~", "0.9", "0.9+dfsg-1", "0.10", "1", "0.9.8-beta-1~bpo1"]];
+pub const VERS: [&[&str]; 2] = [&["1.0~rc1", "1.0", "1.0-1", "1.0-1+b1", "1.1", "2", "1.0-rc1-2", "1.0-0"], &["0.9~~", "0.9~", "0.9", "0.9+dfsg-1", "0.10", "1", "0.9.8-beta-1~bpo1", "01.2-00"]];   // (zero revision, leading zeros: equal to shorter spellings, not the same text)
 const ARCHS: &[&str] = &["amd64", "i386", "linux-any", "hurd-i386"];
 const PROFS: &[&str] = &["nocheck", "stage1", "cross", "pkg.foo.bar"];
 
@@ -187,9 +187,13 @@ pub fn concretise_field(case: &Value, map: usize) -> (String, Vec<String>) {
     let mut texts = vec![];
     let mut ver_seen: std::collections::HashMap<(u64, u64), usize> = std::collections::HashMap::new();
     let mut arch_n = 0usize; let mut prof_n = 0usize; let mut sv_n = 0usize; let mut ws_n = 0usize;
+    let dup = case["dup"].as_bool() == Some(true);
     for (i, k) in kinds.iter().enumerate() {
         let role = roles[i][0].as_str().unwrap_or("");
-        let e = roles[i][1].as_u64().unwrap_or(0); let r = roles[i][2].as_u64().unwrap_or(0);
+        let e = roles[i][1].as_u64().unwrap_or(0); let mut r = roles[i][2].as_u64().unwrap_or(0);
+        // "dup" cases: the same alternative twice in an entry - relations built from the same value get the same texts
+        if dup && r == 3 { r = 1; }
+        if dup && r == 2 && case["x"][0]["rels"].as_array().map(|a| a.len()) == Some(2) { r = 1; }
         let t = match *k {
             "COLON" => ":".to_string(), "PIPE" => "|".into(), "COMMA" => ",".into(), "L_PARENS" => "(".into(), "R_PARENS" => ")".into(),
             "L_BRACKET" => "[".into(), "R_BRACKET" => "]".into(), "NOT" => "!".into(), "L_ANGLE" => "<".into(), "R_ANGLE" => ">".into(),
@@ -204,7 +208,7 @@ pub fn concretise_field(case: &Value, map: usize) -> (String, Vec<String>) {
                     *n += 1;
                     // epoch form: IDENT(epoch) COLON IDENT(version): look ahead to see whether a COLON with role ver follows
                     let is_epoch_part = *n == 1 && kinds.get(i + 1) == Some(&"COLON") && roles[i + 1][0] == "ver";
-                    if is_epoch_part { ["1", "10", "2"][map % 3].to_string() } else { VERS[map % 2][(e as usize + r as usize) % VERS[map % 2].len()].to_string() }
+                    if is_epoch_part { ["1", "10", "2", "0"][(map + e as usize) % 4].to_string() } else { VERS[map % 2][(e as usize + r as usize) % VERS[map % 2].len()].to_string() }
                 }
                 "arch" => { arch_n += 1; if map == 2 { ARCHS[arch_n % 2].to_string() } else { ARCHS[(arch_n + map) % ARCHS.len()].to_string() } }   // (map 2: repeated architectures)
                 "prof" => { prof_n += 1; PROFS[(prof_n + map) % PROFS.len()].to_string() }
